@@ -805,6 +805,8 @@ class Engine:
                 outs = []
                 for s2, b in sides:
                     self.cov.setdefault(key, set()).add('T' if b else 'F')
+                    if len(sides) > 1:
+                        self.refine(s2, node.test, b)
                     outs.extend(self.exec_block(s2, node.body if b else node.orelse, fr))
                 normals = [o[0] for o in outs if o[1] == NORMAL]
                 others = [o for o in outs if o[1] != NORMAL]
@@ -814,6 +816,37 @@ class Engine:
                     others = self._merge_nonnormal(s1, others)
                 res.extend([(x, NORMAL, None) for x in normals] + others)
         return res
+
+    def refine(self, st, test, taken):
+        """interval refinement of a local variable after branching on `name <op> constant`"""
+        if isinstance(test, ast.UnaryOp) and isinstance(test.op, ast.Not):
+            return self.refine(st, test.operand, not taken)
+        if isinstance(test, ast.Name):
+            v = st.env.get(test.id)
+            if isinstance(v, SInt) and not taken:
+                pass
+            return
+        if not (isinstance(test, ast.Compare) and len(test.ops) == 1 and isinstance(test.left, ast.Name)
+                and isinstance(test.comparators[0], ast.Constant) and type(test.comparators[0].value) is int):
+            return
+        v = st.env.get(test.left.id)
+        if not isinstance(v, SInt):
+            return
+        c = test.comparators[0].value
+        op = type(test.ops[0])
+        if not taken:
+            op = {ast.Lt: ast.GtE, ast.LtE: ast.Gt, ast.Gt: ast.LtE, ast.GtE: ast.Lt, ast.Eq: ast.NotEq, ast.NotEq: ast.Eq}.get(op)
+        lo, hi = v.lo, v.hi
+        if op is ast.Lt: hi = min(hi, c - 1)
+        elif op is ast.LtE: hi = min(hi, c)
+        elif op is ast.Gt: lo = max(lo, c + 1)
+        elif op is ast.GtE: lo = max(lo, c)
+        elif op is ast.Eq: lo = hi = c
+        else:
+            return
+        if lo > hi:
+            return
+        st.env[test.left.id] = c if (op is ast.Eq) else SInt(v.t, lo, hi)
 
     def _merge_nonnormal(self, st0, others):
         """merge RETURN outcomes of sibling branches (values by ite), keep the rest"""
@@ -845,6 +878,9 @@ class Engine:
                     break
                 raise Unsupported('loop bound %d exceeded at %s:%d' % (bound, key[0], node.lineno))
             nxt = []
+            if it >= 3 and not self.abstract:
+                # a loop that keeps running on concrete values must still be on a feasible path
+                live = [s0 for s0 in live if self.feasible(s0.pc)]
             for s0 in live:
                 for s, kind, c in self.eval_x(s0, node.test, fr):
                     if kind != NORMAL:
